@@ -155,6 +155,151 @@ func main() {
 	}
 	fmt.Println(strings.Join(ls, ";\n"))
 	fmt.Println("].")
+	replies(parsed)
+}
+
+// replies lists every request the API hands to the event loop together with a reply channel (a struct with a channel
+// field named resp): where the reply channel is made, whether it is buffered, and whether the function that made it
+// receives from it unconditionally (a plain receive, not an arm of a select).  The loop answers with a bare send.
+func replies(parsed []*ast.File) {
+	reqTypes := map[string]int{} // struct name -> index of the resp field
+	for _, af := range parsed {
+		ast.Inspect(af, func(n ast.Node) bool {
+			ts, ok := n.(*ast.TypeSpec)
+			if !ok {
+				return true
+			}
+			st, ok := ts.Type.(*ast.StructType)
+			if !ok {
+				return true
+			}
+			idx := 0
+			for _, f := range st.Fields.List {
+				for _, nm := range f.Names {
+					if _, isCh := f.Type.(*ast.ChanType); isCh && nm.Name == "resp" {
+						reqTypes[ts.Name.Name] = idx
+					}
+					idx++
+				}
+			}
+			return false
+		})
+	}
+	var ls []string
+	for _, af := range parsed {
+		for _, d := range af.Decls {
+			fd, ok := d.(*ast.FuncDecl)
+			if !ok || fd.Body == nil {
+				continue
+			}
+			fn := fd.Name.Name
+			if fd.Recv != nil && len(fd.Recv.List) > 0 {
+				fn = strings.TrimPrefix(src(fd.Recv.List[0].Type), "*") + "." + fn
+			}
+			// channels made in this function
+			made := map[string]bool{} // name -> buffered
+			ast.Inspect(fd.Body, func(n ast.Node) bool {
+				as, ok := n.(*ast.AssignStmt)
+				if !ok || len(as.Lhs) != 1 || len(as.Rhs) != 1 {
+					return true
+				}
+				id, ok := as.Lhs[0].(*ast.Ident)
+				c, ok2 := as.Rhs[0].(*ast.CallExpr)
+				if ok && ok2 && src(c.Fun) == "make" && len(c.Args) >= 1 {
+					if _, isCh := c.Args[0].(*ast.ChanType); isCh {
+						made[id.Name] = len(c.Args) == 2
+					}
+				}
+				return true
+			})
+			// receives: plain or as an arm of a select
+			plain := map[string]bool{}
+			inSelect := map[string]bool{}
+			var walk func(n ast.Node)
+			walk = func(n ast.Node) {
+				ast.Inspect(n, func(m ast.Node) bool {
+					switch x := m.(type) {
+					case *ast.SelectStmt:
+						for _, c := range x.Body.List {
+							cc := c.(*ast.CommClause)
+							if cc.Comm != nil {
+								ast.Inspect(cc.Comm, func(k ast.Node) bool {
+									if u, ok := k.(*ast.UnaryExpr); ok && u.Op == token.ARROW {
+										inSelect[src(u.X)] = true
+									}
+									return true
+								})
+							}
+							for _, b := range cc.Body {
+								walk(b)
+							}
+						}
+						return false
+					case *ast.UnaryExpr:
+						if x.Op == token.ARROW {
+							plain[src(x.X)] = true
+						}
+					}
+					return true
+				})
+			}
+			walk(fd.Body)
+			ast.Inspect(fd.Body, func(n ast.Node) bool {
+				cl, ok := n.(*ast.CompositeLit)
+				if !ok {
+					return true
+				}
+				tn := src(cl.Type)
+				idx, isReq := reqTypes[tn]
+				if !isReq {
+					return true
+				}
+				var e ast.Expr
+				for i, el := range cl.Elts {
+					if kv, ok := el.(*ast.KeyValueExpr); ok {
+						if src(kv.Key) == "resp" {
+							e = kv.Value
+						}
+					} else if i == idx {
+						e = el
+					}
+				}
+				if e == nil {
+					return true // no reply channel in this request (a nil resp is never answered)
+				}
+				buffered, recvPlain, name := false, false, src(e)
+				if c, ok := e.(*ast.CallExpr); ok && src(c.Fun) == "make" {
+					buffered = len(c.Args) == 2
+					name = ""
+				} else if b, ok := made[name]; ok {
+					buffered = b
+				} else {
+					fmt.Fprintf(os.Stderr, "sendsites: cannot find where %s makes the reply channel %s of its %s\n", fn, name, tn)
+					os.Exit(1)
+				}
+				if name != "" {
+					recvPlain = plain[name] && !inSelect[name]
+				} else {
+					// made inline: received through the request value (req.resp); look for any plain receive of a .resp
+					for k := range plain {
+						if strings.HasSuffix(k, ".resp") {
+							recvPlain = true
+						}
+					}
+					for k := range inSelect {
+						if strings.HasSuffix(k, ".resp") {
+							recvPlain = false
+						}
+					}
+				}
+				ls = append(ls, fmt.Sprintf("  {| r_fn := \"%s\"; r_req := \"%s\"; r_buffered := %v; r_plain_recv := %v |}", fn, tn, buffered, recvPlain))
+				return true
+			})
+		}
+	}
+	fmt.Println("Definition gen_replies : list reply := [")
+	fmt.Println(strings.Join(ls, ";\n"))
+	fmt.Println("].")
 }
 
 func record(sites *[]site, file, fn string, s *ast.SendStmt, guarded bool, loopChans, buffered map[string]bool) {
